@@ -1,4 +1,5 @@
 pub mod c07;
+pub mod dirty;
 pub mod gen;
 pub mod hx;
 pub mod inflight;
